@@ -6,7 +6,7 @@ import vlib
 from vlib import Report, ToolError, log
 
 PID = "C08"
-ENGINES = ["pmmrstore"]
+ENGINES = ["pmmrstore", "crash"]
 ACTIONS = ["Begin", "Rewind", "Append", "Remove", "Commit", "Discard", "Compact", "Reopen"]
 SPEC_ACTIONS = ["Begin", "DoRewind", "AppendLeaf", "DoRemove", "Commit", "Discard", "DoCompact", "Reopen"]
 VARIANTS = [("fixed", "single"), ("fixed", "steps"), ("var", "single"), ("var", "steps")]
@@ -187,8 +187,29 @@ def run(tier, replay):
         if ok:
             raise ToolError("self-test: corrupted trace accepted")
 
+    # chain-level clause: Chain::compact is a stutter on head / roots / unspent set / full validation and
+    # still permits reorganisations inside the horizon: a compacted node and a never-compacted twin get the
+    # same 88-block history whose last blocks spend whole runs of old outputs, then a fork replacing the
+    # last 1..4 blocks, then a block re-spending what the dropped blocks had spent
+    import subprocess
+    chain_level = []
+    depths = [1, 2, 3, 5] if tier == "thorough" else [2]
+    for dep in depths:
+        p = subprocess.run([os.path.join(vlib.HARNESS_BINDIR, "h_crash"), "compact_reorg", "--dir", os.path.join(wd, "cr%d" % dep),
+                            "--blocks", "88", "--depth", str(dep), "--seed", str(vlib.seed() + dep)],
+                           stdout=subprocess.PIPE, stderr=subprocess.PIPE, text=True, timeout=1800)
+        if p.returncode != 0 or not p.stdout.strip():
+            print(p.stdout[-1500:], p.stderr[-1500:])
+            raise ToolError("compact_reorg scenario failed to run")
+        o = json.loads(p.stdout.strip().splitlines()[-1])
+        chain_level.append({"reorg_depth": dep, "compact": o["compact"], "problems": len(o["problems"]), "head_height": o["head_height"]})
+        for pr in o["problems"]:
+            rep.violation("pmmrstore:chain:compact_reorg:%s" % pr["what"].split(":")[-1], {"kind": "compact_reorg", "depth": dep, "problem": pr, "spent_old": o["spent_old"]},
+                          json.dumps(pr)[:300])
+
     rep.coverage = {
         "states": states, "transitions": trans,
+        "chain_level_compaction_reorg": chain_level,
         "traces_validated_against_impl": replayed + len(traces),
         "samples": [{"behaviour": sets[0][1][len(sets[0][1]) // 2]},
                     {"sim_behaviour_head": sets[1][1][0][:12]},
